@@ -8,6 +8,7 @@ package c05
 import (
 	"fmt"
 	"io/fs"
+	"os"
 	"path/filepath"
 	"strings"
 	"syscall"
@@ -21,13 +22,40 @@ type Fault struct {
 	Errno string `json:"errno"`
 }
 
-type Plan struct {
-	ID     int     `json:"id"`
-	Scn    string  `json:"scn"`
-	Faults []Fault `json:"faults"`
+// Matcher is a persistent failure: every call of kind V / on path class V /
+// that writes / at all fails with Errno, every time (Faults.tla Matchers).
+type Matcher struct {
+	M     string `json:"m"` // kind | pc | writes | all
+	V     string `json:"v"`
+	Errno string `json:"errno"`
 }
 
-var Errnos = map[string]syscall.Errno{"ENOENT": syscall.ENOENT, "EACCES": syscall.EACCES, "ENOSPC": syscall.ENOSPC, "EIO": syscall.EIO}
+type Plan struct {
+	ID     int      `json:"id"`
+	Scn    string   `json:"scn"`
+	Faults []Fault  `json:"faults"`
+	Match  *Matcher `json:"match"`
+}
+
+var Errnos = map[string]syscall.Errno{"ENOENT": syscall.ENOENT, "EACCES": syscall.EACCES, "ENOSPC": syscall.ENOSPC, "EIO": syscall.EIO,
+	"EROFS": syscall.EROFS, "EMFILE": syscall.EMFILE}
+
+var writeKinds = map[string]bool{"os.WriteFile": true, "os.WriteFile.write": true, "file.Write": true, "file.WriteAt": true, "os.MkdirAll": true,
+	"os.Remove": true, "os.Rename": true, "os.Create": true, "os.OpenFile": true}
+
+func (m *Matcher) matches(kind, pc string) bool {
+	switch m.M {
+	case "kind":
+		return kind == m.V
+	case "pc":
+		return pc == m.V
+	case "writes":
+		return writeKinds[kind]
+	case "all":
+		return true
+	}
+	return false
+}
 
 // PathClass names a path by its role in the telemetry directory dir.
 func PathClass(dir, p string) string {
@@ -81,6 +109,7 @@ func PathClass(dir, p string) string {
 type Hooks struct {
 	Dir   string // telemetry directory (for path classes)
 	Plan  map[int]string
+	Match *Matcher
 	NCall int
 	Step  int
 	Op    string
@@ -94,6 +123,7 @@ func NewHooks(dir string, plan *Plan) *Hooks {
 		for _, f := range plan.Faults {
 			h.Plan[f.Idx] = f.Errno
 		}
+		h.Match = plan.Match
 	}
 	return h
 }
@@ -103,7 +133,11 @@ func (h *Hooks) Fault(kind, path string) error {
 	h.NCall++
 	pc := PathClass(h.Dir, path)
 	h.Calls = append(h.Calls, rt.M{"i": h.NCall, "step": h.Step, "op": h.Op, "kind": kind, "pc": pc})
-	if en, ok := h.Plan[h.NCall]; ok {
+	en, ok := h.Plan[h.NCall]
+	if h.Match != nil {
+		ok, en = h.Match.matches(kind, pc), h.Match.Errno
+	}
+	if ok {
 		h.Fired = append(h.Fired, rt.M{"idx": h.NCall, "step": h.Step, "kind": kind, "pc": pc, "errno": en})
 		return &fs.PathError{Op: kind, Path: path, Err: Errnos[en]}
 	}
@@ -194,6 +228,7 @@ func Run(name string, budget int, fn func()) (ret string, steps int, fnName, tex
 // ModeBytes.tla: a prefix of "<base> 2023-09-26" cut after Cut bytes, or a
 // garbage class G.
 type ModeClass struct {
+	File string `json:"file"` // mode (default) | weekends: which file of the telemetry directory holds the bytes
 	Kind string `json:"kind"` // prefix | garbage
 	Base string `json:"base"`
 	Cut  int    `json:"cut"`
@@ -240,6 +275,42 @@ func (m *ModeClass) Bytes() []byte {
 		return []byte("on ")
 	case "dateonly":
 		return []byte(" " + ModeDate)
+	// the week-end file (one digit, the day of the week on which files expire)
+	case "w:valid":
+		return []byte("4\n")
+	case "w:empty":
+		return []byte{}
+	case "w:spaces":
+		return []byte(" \n\t")
+	case "w:nl":
+		return []byte("\n2")
+	case "w:seven":
+		return []byte("7\n")
+	case "w:nine":
+		return []byte("9")
+	case "w:letter":
+		return []byte("x")
+	case "w:minus":
+		return []byte("-1")
+	case "w:utf8":
+		return []byte("\xff\xfe")
+	case "w:long":
+		return []byte(strings.Repeat("3", 1<<16))
 	}
 	return []byte(m.G)
+}
+
+// Install puts the bytes (or, for the class isdir, a directory) at the file's
+// place in the telemetry directory dir.
+func (m *ModeClass) Install(dir string) error {
+	p := filepath.Join(dir, "mode")
+	if m.File == "weekends" {
+		p = filepath.Join(dir, "local", "weekends")
+	}
+	os.MkdirAll(filepath.Dir(p), 0777)
+	os.RemoveAll(p)
+	if m.G == "isdir" || m.G == "w:isdir" {
+		return os.MkdirAll(p, 0777)
+	}
+	return os.WriteFile(p, m.Bytes(), 0666)
 }
